@@ -115,6 +115,8 @@ WORDS = ["lorem", "ipsum", "release", "notes", "2019", "x86", "the", "version", 
 
 
 def occurrence_text(pat, vast, state):
+    if "text" in pat:
+        return pat["text"]  # fixed text (legacy projects: no reference renderer needed)
     if pat["kind"] == "pep":
         return pat["d1"] + pep440ref.canonical(ref_render(vast, state)) + pat["d2"]
     return ref_render(pat["ast"], state)
@@ -281,11 +283,12 @@ def project_config(spec, old, options=None):
     files = [[key, [spec["patterns"][i]["raw"] for i in idx]] for key, idx in spec["entries"]]
     if spec.get("explicit_config_entry"):
         files.insert(0, ["bumpver.toml", ['current_version = "{version}"']])
-    return toml_config({"current_version": old, "version_pattern": pattern_str(spec["ast"]), "options": options or {}, "files": files})
+    vp = spec.get("pattern_text") or pattern_str(spec["ast"])
+    return toml_config({"current_version": old, "version_pattern": vp, "options": options or {}, "files": files})
 
 
 def materialize(spec, root, state, options=None):
-    old = ref_render(spec["ast"], state)
+    old = spec.get("old_text") or ref_render(spec["ast"], state)
     write_file(root, "bumpver.toml", project_config(spec, old, options))
     for f in spec["files"]:
         write_file(root, f["path"], render_file(f, spec["patterns"], spec["ast"], state))
